@@ -1,6 +1,6 @@
 SPECIFICATION SpecE
 CONSTANTS
-  GridLevel = 1
+  GridLevel = 2
   Chunks = 1
 POSTCONDITION EmitExtra
 CHECK_DEADLOCK FALSE
